@@ -314,6 +314,11 @@ Section Rpc.
      serr_ok       the constant fall-back reply of server.py:91 can be serialised;
      serve_api     the in-process functions do not distinguish a request from its arrived form
                    (server.py:54,58 tuple(position); :54-66 nstr(source)). *)
+  (* a request that raises in-process leaves the in-process state as it was (e.g. configure:
+     server.py:36 assigns self.project only after Project(...) has returned) *)
+  Definition raise_pure : Prop :=
+    forall ps r c m ps', api W ps r = (Raise c m, ps') -> ps' = ps.
+
   Record world_ok : Prop := {
     codec_rt : forall v w b, to_msg W v = Some w -> enc W w = Some b -> dec W b = Some w;
     norm_ok : forall v w, to_msg W v = Some w -> of_msg W w = normalise W v;
